@@ -264,6 +264,10 @@ func addVal(valA, valB Quantity) Quantity {
 }
 
 func subVal(valA, valB Quantity) Quantity {
+	if valB == math.MinInt64 {
+		// -valB wraps back to MinInt64: subtract in two steps, valA - MinInt64 = valA + MaxInt64 + 1
+		return addVal(addVal(valA, math.MaxInt64), 1)
+	}
 	return addVal(valA, -valB)
 }
 
